@@ -197,6 +197,12 @@ func get(r leveldb.Reader, readOpts *opt.ReadOptions, key string) (string, error
 }
 
 func find(r leveldb.Reader, readOpts *opt.ReadOptions, start, end string) sorted.Iterator {
+	if end != "" && start >= end {
+		// Nothing is in an empty or inverted range. goleveldb must not see an
+		// inverted one: once it has compacted table files it panics on it
+		// (slice bounds out of range in tFiles.newIndexIterator).
+		return errIter{}
+	}
 	var startB, endB []byte
 	// A nil Range.Start is treated as a key before all keys in the DB.
 	if start != "" {
